@@ -352,7 +352,7 @@ func main() {
 	defer ekit.CleanupFiles()
 	vkit.Main(&vkit.Spec{
 		Property: "C04", Level: "model_checking",
-		Rule: "one scenario = transport x epoll mode x socket capacity K x origin of the write (OnOpen before registration, OnData on the poller, another thread after / racing AddConn, two writes, Sendfile behind a backlog, inside the dial callback; and second rounds from non-initial states: a new backlog after the first one was flushed completely, after a dial whose callback left none, a second OnData write; and backlogs that consist of a file range only, which the byte counter does not see); every interleaving of writer, poller and the peer's reads (at idle moments, and in a second set of scenarios also from a reader thread that makes room while a writer is still inside its call) within the preemption bound and every kernel answer within the deviation bound; liveness decided on terminal states after a fair drain; non-trivial = the execution created a backlog (EAGAIN or short write)",
+		Rule: "one scenario = transport x epoll mode x socket capacity K x origin of the write (OnOpen before registration, OnData on the poller, another thread after / racing AddConn, two writes, Sendfile behind a backlog, inside the dial callback; deep backlogs of 13 / 34 small queue entries in which file ranges and buffers alternate so that nothing is merged and all of which fit into the drained socket at once; and second rounds from non-initial states: a new backlog after the first one was flushed completely, after a dial whose callback left none, a second OnData write; and backlogs that consist of a file range only, which the byte counter does not see); every interleaving of writer, poller and the peer's reads (at idle moments, and in a second set of scenarios also from a reader thread that makes room while a writer is still inside its call) within the preemption bound and every kernel answer within the deviation bound; liveness decided on terminal states after a fair drain; non-trivial = the execution created a backlog (EAGAIN or short write)",
 		Assumptions: []string{
 			"simulated kernel: writability wake-ups are delivered only after the socket reported no space (TCP semantics) and as soon as at least one byte is free; every verdict is taken after the peer drained everything",
 			"fair drain: the peer reads everything whenever anything is queued; no further call by the application",
